@@ -111,6 +111,51 @@ func c06LzRun(dir string, id int, c *c06Case, saved int64, jp *jobProvider, lg *
 	if !ok {
 		return &c06LzMismatch{Kind: "lz4_calls_differ", Case: *c, Saved: saved, Want: want, Got: got}
 	}
+	if id%2 == 0 && job.isDone {
+		// Second life of the job in the same run: everything handed over so far is acknowledged; maintenance releases and
+		// re-opens the descriptor of the fully read file (a compressed stream starts over at byte 0); something resumes the job
+		// (a create/rename notification, or maintenanceSymlinks on every tick for a symlinked file).  Nothing NEW may come out:
+		// whatever is handed over again carries its own offset, which the plugin's PassEvent refuses as already committed.
+		last := saved
+		for _, g := range rec.calls {
+			if g.Off > last {
+				last = g.Off
+			}
+		}
+		if last > 0 {
+			if fi, err := job.file.Stat(); err == nil {
+				job.inode = getInode(fi)
+			}
+			job.offsets = pipeline.SliceFromMap(map[pipeline.StreamName]int64{"a": last})
+			if r := jp.maintenanceJob(job); r != maintenanceResultNoop {
+				return &c06LzMismatch{Kind: "lz4_maintenance_disturbed_read_file", Case: *c, Saved: saved, Panic: fmt.Sprint("result ", r)}
+			}
+			defer func() {
+				if job.file != nil && job.file != rf {
+					_ = job.file.Close()
+				}
+			}()
+			rec.calls = rec.calls[:0]
+			job.mu.Lock()
+			jp.tryResumeJobAndUnlock(job, path)
+			<-jp.jobsChan
+			jp.jobsChan <- job
+			jp.jobsChan <- nil
+			w.work(rec, jp, c.B, lg)
+			for len(jp.jobsChan) > 0 {
+				<-jp.jobsChan
+			}
+			again := []c06Call{}
+			for _, g := range rec.calls {
+				if g.Off > last {
+					again = append(again, c06Call{Off: g.Off, Data: g.Data})
+				}
+			}
+			if len(again) > 0 {
+				return &c06LzMismatch{Kind: "lz4_delivered_again_after_maintenance", Case: *c, Saved: last, Want: []c06Call{}, Got: again}
+			}
+		}
+	}
 	return nil
 }
 
